@@ -395,6 +395,29 @@ pub fn chapoly_decrypt_ietf(
     Ok(plaintext)
 }
 
+/// Verification hook: the crate-private Noise-style AEAD (counter nonce).
+#[cfg(feature = "verif")]
+pub fn verif_chapoly_noise_encrypt(key: &[u8], nonce: u64, ad: &[u8], plaintext: &[u8]) -> Vec<u8> {
+    chapoly_encrypt_noise(key, nonce, ad, plaintext)
+}
+
+/// Verification hook: the crate-private Noise-style AEAD (counter nonce).
+#[cfg(feature = "verif")]
+pub fn verif_chapoly_noise_decrypt(
+    key: &[u8],
+    nonce: u64,
+    ad: &[u8],
+    ciphertext: &[u8],
+) -> Result<Vec<u8>, ChaPolyDecryptError> {
+    chapoly_decrypt_noise(key, nonce, ad, ciphertext)
+}
+
+/// Verification hook: the crate-private `hkdf_noise`.
+#[cfg(feature = "verif")]
+pub fn verif_hkdf_noise(chaining_key: &[u8], ikm: &[u8]) -> (Vec<u8>, Vec<u8>) {
+    hkdf_noise(chaining_key, ikm)
+}
+
 /// SHA-256
 pub fn sha256(data: &[u8]) -> Vec<u8> {
     Sha256::digest(data).unwrap().as_ref().to_vec()
